@@ -214,6 +214,7 @@ pub fn explore<S: Scenario>(sc: &S, lim: &Limits, seed_perm: u64) -> Report {
     let mut deepest: Option<(Fp, u32)> = None;
     let mut layer_rate: f64 = 0.0;
     let mut growth: f64 = 8.0;
+    let rss0 = rss_gb();
     for d in 0..lim.max_depth {
         if frontier.is_empty() {
             depth_completed = lim.max_depth; // fixpoint: nothing left to explore at any depth
@@ -229,22 +230,27 @@ pub fn explore<S: Scenario>(sc: &S, lim: &Limits, seed_perm: u64) -> Report {
             }
         }
         let rss = rss_gb();
-        if rss > 36.0 {
+        if rss > 44.0 {
             cap_hit = Some(format!("memory cap: resident set {:.1} GB before layer {}", rss, d + 1));
             break;
         }
         // a frontier state costs roughly 10 kB; the next layer is about as many times larger as this one was
-        // the successors of this layer are stored unless it is the last one; estimate them from the last growth factor
-        if d + 1 < lim.max_depth && frontier.len() as f64 * growth.max(2.0) * 12_000.0 > 30.0e9 {
-            cap_hit = Some(format!("memory cap: successors of a frontier of {} states (growth x{:.1}) would not fit; layer {} not started", frontier.len(), growth, d + 1));
-            break;
+        // the successors of this layer are stored unless it is the last one; estimate them from the last growth
+        // factor and the measured resident bytes per stored state
+        let per_state = if frontier.len() > 10_000 { ((rss - rss0).max(0.0) * 1.0e9 / frontier.len() as f64).clamp(1_500.0, 16_000.0) } else { 6_000.0 };
+        // if they would not fit, this layer is still explored — as the final one: every transition out of the
+        // frontier is executed and checked, the new states are checked but not stored
+        let mut final_by_memory = false;
+        if d + 1 < lim.max_depth && rss * 1.0e9 + frontier.len() as f64 * growth.max(2.0) * per_state > 44.0e9 {
+            cap_hit = Some(format!("memory cap: successors of a frontier of {} states (growth x{:.1}, {:.0} bytes per state, {:.1} GB resident) would not fit; layer {} explored as the final layer (target depth {})", frontier.len(), growth, per_state, rss, d + 1, lim.max_depth));
+            final_by_memory = true;
         }
         if states > lim.max_states {
             cap_hit = Some(format!("state cap {} reached before layer {}", lim.max_states, d + 1));
             break;
         }
         let tl = Instant::now();
-        let last = d + 1 == lim.max_depth;
+        let last = d + 1 == lim.max_depth || final_by_memory;
         let fl = frontier.len();
         let acc: Acc<S> = frontier
             .par_iter()
@@ -345,19 +351,23 @@ pub fn explore<S: Scenario>(sc: &S, lim: &Limits, seed_perm: u64) -> Report {
         // the estimate is only meaningful once a layer saturates the worker threads
         layer_rate = if fl >= 8 * rayon::current_num_threads() { secs / fl as f64 * 1.15 } else { 0.0 };
         eprintln!(
-            "[{}] depth {} new_states {} total_states {} transitions {} layer {:.1}s total {:.1}s",
+            "[{}] depth {} new_states {} total_states {} transitions {} layer {:.1}s total {:.1}s rss {:.1}GB",
             sc.name(),
             d + 1,
             acc.new_states,
             states,
             transitions,
             secs,
-            t0.elapsed().as_secs_f64()
+            t0.elapsed().as_secs_f64(),
+            rss_gb()
         );
         if fl > 0 && !acc.next.is_empty() {
             growth = acc.next.len() as f64 / fl as f64;
         }
         frontier = acc.next;
+        if final_by_memory {
+            break;
+        }
     }
     let _ = deepest;
 
